@@ -44,6 +44,9 @@ BODIES = {
     # parameters that do not bind (-32602 with the validator's description as data), alone and inside a batch
     'nobind': json.dumps(call('ok', [1, 2, 3])).encode(), 'nobind-named': json.dumps(call('ok', {'zz': 1})).encode(),
     'mixed-nobind': json.dumps([call('ok', [1], 1), call('ok', {'zz': 1}, 2), call('ok', [1, 2], None)]).encode(),
+    # all-ASCII requests whose strings carry an escaped unpaired surrogate (half an emoji): echoed back in the result / in an error
+    'surrogate': b'{"jsonrpc":"2.0","id":"req-\\ud83d","method":"ok","params":["x\\ud83d"]}',
+    'surrogate-unknown': b'{"jsonrpc":"2.0","id":1,"method":"nope\\ud83d"}',
     # a result that is JSON-encodable but not in JSON normal form (keys of several types)
     'rich': json.dumps(call('rich')).encode(),
     'batch': json.dumps([call('ok', [1], 1), call('ok', [2], 2)]).encode(),
